@@ -78,6 +78,14 @@ inline void result_bits(const avel::Vector_mask<T, N>& r, std::uint64_t* out) {
     for (unsigned i = 0; i < N; ++i) out[i] = tmp[i];
 }
 
+// scalar results (the scalar overloads): arithmetic value or bool
+template<class T>
+inline typename std::enable_if<std::is_arithmetic<T>::value>::type result_bits(T r, std::uint64_t* out) {
+    out[0] = std::is_same<T, bool>::value ? std::uint64_t(r ? 1 : 0) : bits_of(r);
+}
+template<class S>
+inline void result_bits(Sc<S> r, std::uint64_t* out) { out[0] = bits_of(r.v); }
+
 template<class S>
 inline std::uint64_t tuple_hash(int arity, S a, S b, S c) {
     std::uint64_t h = mix(bits_of(a));
